@@ -189,7 +189,11 @@ func TestVerifReplay(t *testing.T) {
 					d.Composite = &fnv1.Resource{Resource: MustStruct(map[string]any{"apiVersion": "example.org/v1", "kind": "XThing", "status": map[string]any{
 						"note":       "written-by-the-function",
 						"conditions": []any{map[string]any{"type": "Ready", "status": "True", "reason": "Available", "lastTransitionTime": "2024-01-01T00:00:00Z"}},
-					}})}
+					}}), Ready: fnv1.Ready_READY_TRUE} // ... and explicitly marks the XR ready
+				}
+				if i > 0 && i == len(pl)-1 && d.Composite != nil {
+					// the last of several functions rebuilds the desired XR and has no opinion on its readiness
+					d.Composite = &fnv1.Resource{Resource: d.Composite.GetResource()}
 				}
 				for k, v := range req.GetDesired().GetResources() {
 					d.Resources[k] = v
@@ -321,6 +325,14 @@ func TestVerifReplay(t *testing.T) {
 				}
 				if !found || len(persistedRefs) != len(pl) {
 					t.Fatalf("VERIF-REPRODUCED: %s: persisted references %v do not name every desired resource (%d desired, \"keep\" among them)", desc, persistedRefs, len(pl))
+				}
+			}
+			if err == nil {
+				switch {
+				case len(pl) == 1 && (res.Composite.Ready == nil || !*res.Composite.Ready):
+					t.Fatalf("VERIF-REPRODUCED: %s: the only function marked the XR ready, Compose reports Composite.Ready=%v", desc, res.Composite.Ready)
+				case len(pl) > 1 && res.Composite.Ready != nil:
+					t.Fatalf("VERIF-REPRODUCED: %s: the last function returned a desired XR without an explicit readiness, Compose reports Composite.Ready=%v (an earlier step's opinion the last step did not carry over)", desc, *res.Composite.Ready)
 				}
 			}
 			if statusPatched && len(patchedConditions) > 0 {
